@@ -49,7 +49,7 @@ def main():
             out["confirmed"]["apply_output"] = o[-1500:]
             return finish(out, src, sid, None)
         # regenerate the patch against HEAD (in case of 3-way)
-        rc, headpatch = sh("git diff", cwd=wt)
+        rc, headpatch = sh("git diff HEAD", cwd=wt)
         rc, o = sh("go build ./... && go build -tags verif ./...", cwd=wt)
         out["confirmed"]["builds"] = rc == 0
         if rc != 0:
@@ -73,7 +73,7 @@ def main():
         rc1, o1 = sh(cmd, cwd=wt, timeout=900)
         out["confirmed"]["demo_fails_with_change"] = rc1 != 0
         out["confirmed"]["demo_with_change_tail"] = o1[-800:]
-        sh("git apply -R %s" % patch if False else "git checkout -- .", cwd=wt)
+        sh("git reset -q --hard HEAD", cwd=wt)
         rc2, o2 = sh(cmd, cwd=wt, timeout=900)
         out["confirmed"]["demo_passes_without_change"] = rc2 == 0
         if rc2 != 0:
